@@ -79,10 +79,48 @@ def check(run, prog, tier):
     run.rule("C01-H", "a Lindblad form may have no system-bath interaction: the methods it inherits do not dereference "
                       "self.SystemBathInteraction where it can be None", minimum=3)
     rule_H(run, prog)
+    run.rule("C01-I", "'secularized' is a statement about the data in force: whoever recalculates the tensor clears the mark, so "
+                      "that a later secularize() acts on the new data (stored-result analysis, switch form)", minimum=2)
+    rule_I(run, prog)
     rule_A(run, prog)
     rule_B(run, prog)
     rule_C(run, prog)
     rule_D(run, prog)
+
+
+def rule_I(run, prog):
+    """'Secularization ... sets every other element to zero' - also when the tensor was secularized before and has been
+    recalculated since.  Secular.secularize works behind a 'done already' switch (`if not self.is_secular: <work>;
+    self.is_secular = True`, found by the stored-result analysis qv/memo.py); the work reads and rewrites self.data.  The
+    public way to recalculate a tensor is initialize(): every initialize() of a class that inherits Secular and
+    (through the methods of self it calls) stores new data has to clear the switch, otherwise the next secularize() returns
+    without touching the new, non-secular data."""
+    from .. import memo
+    rid = "C01-I"
+    sec = prog.cls("quantarhei.qm.liouvillespace.secular.Secular")
+    sw = [m for m in memo.find_memos(prog, sec, block_switch=True) if getattr(m, "switch", False) and m.func.name == "secularize"]
+    if len(sw) != 1:
+        raise AnalysisError("Secular.secularize: the 'done already' switch was not recognised (found %d)" % len(sw))
+    flag = sw[0].attr
+    prog.consulted.add(sw[0].func.relpath)
+    n = 0
+    for cls in prog.all_classes():
+        if cls is sec or sec not in [x for x in prog.mro(cls) if x is not None] or "initialize" not in cls.methods:
+            continue
+        f = cls.methods["initialize"]
+        methods = memo._class_methods(prog, cls)
+        w = memo._transitive_writes(methods, f, f.node.body, depth=4)
+        if not ({"data", "_data"} & set(w)):
+            continue
+        n += 1
+        prog.consulted.add(f.relpath)
+        run.obligation(rid, f.short, flag in w, key="recalculation-clears-" + flag,
+                       message="%s stores newly calculated data and leaves self.%s as it was: after secularize(); initialize() the "
+                               "tensor holds all its non-secular elements, self.%s is still True and the next secularize() (the "
+                               "switch `%s` in Secular.secularize) returns without setting them to zero"
+                               % (f.short, flag, flag, norm(sw[0].guard.test)), loc=f.loc(f.node), sample={"class": cls.name})
+    if n < 4:
+        raise AnalysisError("C01-I: only %d initialize() methods that store data found (6 confirmed)" % n)
 
 
 def rule_G(run, prog):
